@@ -505,6 +505,7 @@ fn from_wire(c: &mut Ctx) {
             }
             _ => names::hostile_wire(&mut rng),
         };
+        let w = crate::ctx::exact(&w);
         let ref_abs = validate_abs_name(&w).is_ok();
         let ref_rel = validate_rel_name(&w).is_ok();
         let ex = || json!({"input": hex(&w)});
